@@ -83,6 +83,12 @@ def families(tier: str) -> list[dict]:
         fams.append(reffam.fam(c, ['Train', 'Step', 'Eval'], d + 1,
                                micro=sorted({1, c['accum']}), strict=True,
                                replay_cfgs=rcs))
+    # a long-running job: the step counter crosses 2**8 during the behaviour
+    cz = dict(base, model='mlp2', decay=0.9, accum=2, in_hook=True, F=1, I=2,
+              steps0=254)
+    fams.append(reffam.fam(cz, ['Train', 'Step'], 20 if quick else 36,
+                           micro=[2], exhaustive=False,
+                           num=2 if quick else 10, spec_depth=4))
     return fams
 
 
